@@ -1,14 +1,14 @@
 CONSTANTS
-  W = 1
-  Limit = 4
+  W = 3
+  Limit = 3
   L = 1
   Uds = {}
-  MaxConns = 6
-  MaxFaults = 0
+  MaxConns = 5
+  MaxFaults = 1
   MaxCmds = 0
   MaxErrs = 0
   MaxBare = 0
-  WakeAt = 5
+  WakeAt = 4
   IgnoreUnknownIdx = TRUE
   UnlinkOnDeregister = FALSE
   ResumeClearsBackoff = TRUE
@@ -27,7 +27,7 @@ CONSTANTS
   ResendWithoutCheck = FALSE
   RejoinAtIndex = FALSE
   DropPausePair = FALSE
-  TrackRepeat = FALSE
+  TrackRepeat = TRUE
 SPECIFICATION Spec
 VIEW View
 INVARIANTS TypeOK C01_Conservation C01_ServedOnce C01_NoSilentDrop C02_Bound C02_NoForcedSend C03_NoLostWake C04_RoundRobin C04_BitsTrueWhenCalm C05_ListenerLive C05_UdsReachable C05_ConnErrNoDelay C05_TimerHasTimeout C08_NoPanic C08_NoSpin C08_NoGhostBit C08_NoDupHandles C08_FaultReportedOnce C08_NoLostIndex
